@@ -1,2 +1,52 @@
-(* C20 -- statements only. *)
-From UP Require Import Base.Chars Model.Uri.
+(* C20 — concurrent calls on distinct objects are safe; no mutable shared state.
+
+   PARTIAL BY NATURE.  The theorems below are about footprint-disciplined programs in general
+   (Spec/Footprint.v): if every step of every thread changes only locations its thread owns and
+   depends only on those and on shared read-only locations, then in EVERY interleaving each thread
+   observes exactly what it observes when run alone, shared inputs never change, and no location is
+   accessed by two threads with one of them writing.  That the C functions are disciplined in this
+   sense — they write only to their own arguments and to blocks they allocate, and the library has
+   no writable global or static data — is runtime behaviour; the check observes it on the code
+   (symbol tables of the freshly built objects, per-thread digests, ThreadSanitizer).  In the Coq
+   model every operation is a Gallina function of its arguments (and of the ledger value it is
+   given), hence trivially without hidden state; the allocator itself is the caller's. *)
+From Coq Require Import List Arith.
+From UP Require Import Spec.Footprint Proofs.FootprintProofs.
+Import ListNotations.
+
+(* every schedule of a disciplined program: per-thread views are those of the solo runs, at every
+   moment (first clause: for the steps taken so far) and at the end; shared locations are unchanged *)
+Theorem C20_schedule_independent :
+  forall (V : Type) (owner : loc -> option nat) (P : program V) (m0 : store V) (sched : list nat),
+  (forall i g, In g (P i) -> disciplined V owner i g) ->
+  let r := run_sched V P sched m0 in
+  (forall i, exists pre, P i = pre ++ fst r i /\ agree_on V owner i (snd r) (run_solo V pre m0))
+  /\ (forall i, fst r i = [] -> agree_on V owner i (snd r) (run_solo V (P i) m0))
+  /\ (forall l, owner l = None -> snd r l = m0 l).
+Proof. exact schedule_independent. Qed.
+Print Assumptions C20_schedule_independent.
+
+(* race freedom: a location changed by a step of thread i is owned by i and invisible to every other thread *)
+Theorem C20_no_conflicting_access :
+  forall (V : Type) (owner : loc -> option nat) i j (f : step V) m l,
+  i <> j -> disciplined V owner i f -> f m l <> m l ->
+  owner l = Some i /\ ~ visible owner j l.
+Proof. exact no_conflict. Qed.
+Print Assumptions C20_no_conflicting_access.
+
+(* non-vacuity: two threads, each copying the shared location 0 into its own location *)
+Example C20_nonvacuous :
+  let owner := fun l => match l with 0 => None | 1 => Some 0 | 2 => Some 1 | _ => None end in
+  let copy_to (d : loc) : step nat := fun m l => if Nat.eqb l d then m 0 + m d else m l in
+  disciplined nat owner 0 (copy_to 1) /\ disciplined nat owner 1 (copy_to 2).
+Proof.
+  cbv zeta. split; split.
+  - intros m l H. destruct (Nat.eqb l 1) eqn:E; [apply Nat.eqb_eq in E; subst; exfalso; apply H; reflexivity|reflexivity].
+  - intros m m' A l Hl. destruct (Nat.eqb l 1) eqn:E.
+    + rewrite (A 0), (A 1); [reflexivity| |]; [left; reflexivity|right; reflexivity].
+    + apply A. exact Hl.
+  - intros m l H. destruct (Nat.eqb l 2) eqn:E; [apply Nat.eqb_eq in E; subst; exfalso; apply H; reflexivity|reflexivity].
+  - intros m m' A l Hl. destruct (Nat.eqb l 2) eqn:E.
+    + rewrite (A 0), (A 2); [reflexivity| |]; [left; reflexivity|right; reflexivity].
+    + apply A. exact Hl.
+Qed.
